@@ -64,7 +64,8 @@ CHECKS = {
             "Every document <= 3 nodes x every vocabulary path <= 2 segments "
             "that matches something (again with integer/number-like keys, "
             "and with 1 next to '1'; Collector additions of node coordinates "
-            "in every operand order; slices that can hold no element) is "
+            "in every operand order, an element also under its negative "
+            "index; slices that can hold no element) is "
             "deleted through both public entry "
             "points on fresh copies and compared with the model (matched set "
             "removed, everything else and its order kept); root deletion "
@@ -83,7 +84,10 @@ CHECKS = {
             "keys; the result must satisfy the policy-defined clauses (key "
             "union, per-key recursion, order preservation, append/unique "
             "rules) or be a MergeException where the merge is structurally "
-            "impossible; no other exception type may escape.",
+            "impossible; no other exception type may escape. A frame clause "
+            "for left hashes that inherit through a YAML merge key (the "
+            "anchored hash and its other heirs keep their value, in memory "
+            "and after dump+reload) runs under all 180 combinations.",
             TRUST, "6/C05"),
     "C08": (True, "exploration",
             "exhaustive small-scope enumeration of segment ASTs + Hypothesis "
@@ -94,8 +98,9 @@ CHECKS = {
             "in both notations and three escaping styles, must parse back to "
             "exactly the written segments; its canonical string must re-parse "
             "identically and be a fixed point in both notations; equality "
-            "must coincide with AST equality; append+pop must restore. "
-            "Random <= 6-segment ASTs extend the scope.",
+            "must coincide with AST equality - also when asked of one object "
+            "before, between and after append()/pop(); append+pop must "
+            "restore. Random <= 6-segment ASTs extend the scope.",
             TRUST + "The writer (vp/model/pathast.py) encodes the documented "
             "escapes and demarcation and is part of the oracle.", "6/C08"),
     "C09": (True, "exploration",
@@ -130,7 +135,8 @@ CHECKS = {
             "Every existing-node path, several multi-match paths, creatable "
             "missing tails and unmatchable searches on ~1100 left documents "
             "x 8 right documents of every root kind x rotating policies, "
-            "per-path rules naming the merge point or a path beneath it, "
+            "per-path rules naming the merge point, a path beneath it or a "
+            "sibling whose key merely extends the merge point's key, "
             "targets that are an anchored container or its alias (also "
             "matched twice through /*) under all 180 policies, and empty "
             "left documents: "
@@ -146,6 +152,7 @@ CHECKS = {
             "The full operator x haystack x needle grid (9 x 52 x 43, incl. "
             "integers past 2**53 and 10**400) is "
             "compared with a reference table written from the statement; "
+            "a Boolean against a number is textual, as the statement says; "
             "cells the documentation leaves open are Unspecified and only "
             "checked for not raising. The inverted search must be the exact "
             "complement of the plain one on every list/hash/set of ~1.2e5 "
@@ -201,9 +208,12 @@ CHECKS["C18"] = (True, "exploration",
     "enumeration of document-stream pairs x modes x policies; differential "
     "against a fresh pairwise fold (no shared objects) with a count/order "
     "oracle and a per-case termination watchdog",
-    "Left/right streams of 1-3 documents from a 15-document pool (incl. an "
-    "empty document, overlapping arrays, dates, anchors and merge keys) under condense_all / merge_across / matrix_merge and 5 "
-    "policy mixes are pushed through get_doc_mergers()+merge_docs(); the "
+    "Left/right streams of 1-3 documents from a 17-document pool (incl. an "
+    "empty document, overlapping arrays, dates, anchors and merge keys) under "
+    "condense_all / merge_across / matrix_merge and 5 policy mixes, and "
+    "streams of documents defining one scalar anchor with equal and "
+    "different values under the four anchor policies (>= 3 documents folded "
+    "into one Merger), are pushed through get_doc_mergers()+merge_docs(); the "
     "number, order and content of outputs must equal a reference that "
     "re-loads every document from text and builds a new Merger for every "
     "pairwise step; failed "
@@ -264,7 +274,8 @@ CHECKS["C17"] = (True, "fault_enumeration",
     "each dump write() also as an AssertionError from the serializer) is "
     "failed in turn and the target "
     "or its .bak must still hold the complete pre-image; a completed run "
-    "must leave .bak identical to the pre-image.",
+    "- also one whose edit leaves the bytes unchanged - must leave .bak "
+    "identical to the pre-image.",
     TRUST + "Faults are injected at Python-level I/O call boundaries, not by "
     "killing the process; eyaml is a stand-in executable.", "6/C17")
 
